@@ -116,13 +116,27 @@ def check_relative(run):
         calls = cap.calls
         run.case(cfg, kind="relative-cp")
         key = f"relative:{a!r}:{b!r}:{k}:{segment}:{100 + i}"
-        if len(calls) != 4:
-            run.failing(SITE, key, f"{len(calls)} optimisations instead of "
-                        "1 + 3 passes", payload={"kind": "relative",
-                                                 "cfg": cfg},
-                        theorem="C05_relative_anchor")
-            continue
         x, seg = rec["x"], rec["seg"]
+        if len(calls) != 4:
+            # fewer optimisations are legitimate only when the interval
+            # anchored at the last fitted contact point holds too few points
+            # (the too-few-points guard): then the fit must be unsuccessful
+            pin = idnt.fit_properties["params_initial"]
+            nvar = sum(1 for p in pin.values() if p.vary)
+            legit = False
+            if 0 < len(calls) < 4 and not rec["success"]:
+                cpl = calls[-1]["cp_out"] / k
+                m = numpy_mask(seg, x, float(a + cpl), float(b + cpl))
+                legit = int(m.sum()) <= nvar + 1
+            if not legit:
+                run.failing(SITE, key, f"{len(calls)} optimisations instead "
+                            "of 1 + 3 passes (and no pass had too few "
+                            "points)", payload={"kind": "relative",
+                                                "cfg": cfg},
+                            theorem="C05_relative_anchor")
+            else:
+                run.count("relative-cp-too-few-points")
+            continue
         cps = [c["cp_out"] / k for c in calls]
         # predicted masks per pass
         masks = [seg.copy()]
@@ -164,14 +178,18 @@ def check_plateau(run):
         cols = base_curve(seed=200 + i, n_app=140, n_ret=50)
         ns = run.rng.choice([8, 10, 13, 20])
         rmax = run.rng.choice([1e-6, 2e-6, float("inf")])
-        cfg = {"num_samples": ns, "range_x": [0, rmax], "seed": 200 + i}
+        # the lower bound is a don't-care of the plateau search; inverted
+        # intervals (upper bound first) are legitimate (FitWarning only)
+        rlow = [0, -2e-6, 0, -5e-7][i % 4]
+        rx = [rmax, rlow] if (i % 2 and math.isfinite(rmax)) else [rlow, rmax]
+        cfg = {"num_samples": ns, "range_x": rx, "seed": 200 + i}
         idnt = curves.make_indentation(cols)
-        key = f"plateau:{ns}:{rmax}:{200 + i}"
+        key = f"plateau:{ns}:{rx}:{200 + i}"
         try:
             with warnings.catch_warnings():
                 warnings.simplefilter("ignore")
                 idnt.fit_model(model_key="hertz_para", optimal_fit_edelta=True,
-                               optimal_fit_num_samples=ns, range_x=[0, rmax])
+                               optimal_fit_num_samples=ns, range_x=rx)
         except BaseException as e:
             run.failing(SITE, key, f"plateau search raised "
                         f"{type(e).__name__}: {e}",
@@ -191,12 +209,8 @@ def check_plateau(run):
         elif not (grid.min() <= dopt <= grid.max()):
             why = f"optimal depth {dopt} outside the scanned depths"
         else:
-            xm = rec["x"][rec["seg"]]
-            hi = rmax if math.isfinite(rmax) else float(xm.max())
-            want = numpy_mask(rec["seg"], rec["x"], dopt, max(0, hi)
-                              if math.isfinite(rmax) else float("inf"))
-            want2 = numpy_mask(rec["seg"], rec["x"], dopt, float(np.max(
-                [0, rmax])))
+            want2 = numpy_mask(rec["seg"], rec["x"], dopt,
+                               float(np.max(rx)))
             if not np.array_equal(rec["range"], want2):
                 why = "final fit range is not [optimal depth, max range]"
         if why:
